@@ -144,7 +144,12 @@ def execute(ctx, case):
             C(_equal(r, s.confusion_matrix(x)), "confusion_matrix alias differs from cm", "hist-alias-cm")
             k = key_of("cm", x)
         elif op == "eer":
-            r = s.eer()
+            try:
+                r = s.eer()
+            except ValueError:
+                if monitors.moderate_magnitude(s):
+                    raise
+                continue  # the root search gives up on scores near the float range limits (outside C06's claimed magnitudes); nothing to compare
             k = ("eer",)
         elif op == "auc":
             lo, up = sorted(float(v) for v in rng.choice([0.0, 1.0, 0.25, 0.6], 2))
